@@ -35,6 +35,8 @@ type verifExp struct {
 }
 
 var (
+	verifMoved  [verifMaxRecs]uint32
+	verifNMoved int
 	verifRecs   [verifMaxRecs]verifRec
 	verifBuf    []byte
 	verifTable  [4]verifEnt
@@ -59,7 +61,7 @@ func verifSetupTable(w *inotify, W int) {
 	verifNTable = W
 	for i := 0; i < W; i++ {
 		wd := verifU32("wd")
-		verifAssume(wd >= 1 && wd < 1<<31)
+		verifAssume(wd >= 1 && wd < 1<<30) // headroom: wd wrap-around after 2^31 allocations is outside the claim
 		for j := 0; j < i; j++ {
 			verifAssume(wd != verifTable[j].wd)
 		}
@@ -74,6 +76,18 @@ func verifSetupTable(w *inotify, W int) {
 		if int32(wd) > verifK.nextWd {
 			verifK.nextWd = int32(wd)
 		}
+		verifGuardPtr(&w.mu, w.watches.wd[wd])
+	}
+	// C07 lock discipline: the tables and every watch are only touched with mu held
+	verifGuardMap(&w.mu, w.watches.wd)
+	verifGuardMap(&w.mu, w.watches.path)
+}
+
+// verifLockMon switches the lock-discipline monitor on around real-code calls
+// (the harness's own assertions peek at the tables without the lock).
+func verifLockMon(on bool) {
+	if verifParam("LOCKMON") != 0 {
+		verifMonitor("lock-discipline", on)
 	}
 }
 
@@ -169,7 +183,8 @@ func verifSpecStep(k int, exp []verifExp, errs []error) ([]verifExp, []error) {
 	}
 	if r.mask&unix.IN_MOVE_SELF != 0 {
 		e.live = false
-		verifAssert(verifRmLogged(e.wd), "IN_MOVE_SELF: the kernel watch of the moved file must be removed (it would keep reporting under the old name)")
+		verifMoved[verifNMoved] = e.wd
+		verifNMoved++
 	}
 	if r.mask&unix.IN_DELETE_SELF != 0 && verifListed(filepath.Dir(e.path)) {
 		return exp, errs // the parent's watch reports the removal
@@ -217,6 +232,7 @@ func verifDecodeRun(mode int) {
 		K, spacer = 2, false
 	}
 	verifKReset()
+	verifNMoved = 0
 	w := verifNewInotify(K)
 	verifSetupTable(w, W)
 	n := verifInt("n")
@@ -242,8 +258,10 @@ func verifDecodeRun(mode int) {
 		}
 	}
 
+	verifLockMon(true)
 	w.readEvents() // real code: decode loop, handleEvent, newEvent, sendEvent; 2nd read: os.ErrClosed
 
+	verifLockMon(false)
 	var exp []verifExp
 	var errs []error
 	for k := 0; k < K; k++ {
@@ -280,6 +298,9 @@ func verifDecodeRun(mode int) {
 	case <-w.doneResp:
 	default:
 		verifFail("doneResp not closed when the reader returned")
+	}
+	for i := 0; i < verifNMoved; i++ {
+		verifAssert(verifRmLogged(verifMoved[i]), "IN_MOVE_SELF: the kernel watch of the moved file must be removed (it would keep reporting under the old name)")
 	}
 	verifCheckTables(w)
 	verifJ(w, " after decoding")
